@@ -14,4 +14,25 @@ Theorem C10_source_layout : forall se size opcode, wf_se se -> size <= 0x7FFFFF 
     r' = adv (se_rc4 se) (length wire).
 Proof. exact wrath_source_layout. Qed.
 
+(* the decode side, as translated: the attempt on four wire bytes (decrypt first, then the marker test;
+   the stash written on the long path only) and the completion with the fifth byte are the model's
+   functions, which C10_decode_attempt and C10_sequence are about *)
+Theorem C10_source_decode_is_model : forall h,
+  length (cd_hdr h) = 4%nat ->
+  (forall buf, length buf = 4%nat ->
+     tr_wrath_attempt_decrypt_server_header apply_view (cd_rc4 h) (cd_hdr h) buf = attempt_view (attempt_decrypt_server_header h buf)) /\
+  (forall byte,
+     tr_wrath_decrypt_large_server_header apply_view (cd_rc4 h) (cd_hdr h) byte = large_view (decrypt_large_server_header h byte)).
+Proof.
+  intros h Hh. split; [intros buf Hb; apply wrath_attempt_translated; assumption | intro byte; apply wrath_decrypt_large_translated; exact Hh].
+Qed.
+
+(* the two header parsers: big-endian size (with the marker bit cleared on the long form), little-endian opcode *)
+Theorem C10_source_parsers : forall b0 b1 b2 b3 b4,
+  tr_wrath_from_small_array [b0; b1; b2; b3] = Some (b0 * 256 + b1, b2 + 256 * b3) /\
+  tr_wrath_from_large_array [b0; b1; b2; b3; b4] = Some (N.land b0 127 * 65536 + b1 * 256 + b2, b3 + 256 * b4).
+Proof. intros. split; [apply from_small_array_translated | apply from_large_array_translated]. Qed.
+
 Print Assumptions C10_source_layout.
+Print Assumptions C10_source_decode_is_model.
+Print Assumptions C10_source_parsers.
